@@ -18,21 +18,22 @@ BaseError(b) == CASE b = "cas_reader_bad" -> "InvalidArgument"     \* checksum m
 TaskError == "Unavailable"
 
 
-\* outcome of consuming the chain's buffer after the first n operations
-\*   the data error wins over a task's error; a failed task turns good data into that task's error
+\* outcome of consuming the chain's buffer after the first n operations: a failed task turns good
+\* data into that task's error; when the data is bad as well, either error may be reported
 OutcomeAfter(t, n) ==
     LET failed == \E i \in 1..n : t.ops[i] = "WithTaskFail" IN
-    IF ~GoodBase(t.base) THEN [res |-> "ERR", code |-> BaseError(t.base)]
-    ELSE IF failed THEN [res |-> "ERR", code |-> TaskError]
-    ELSE [res |-> "DATA", code |-> "OK"]
+    IF ~GoodBase(t.base) THEN [res |-> "ERR", code |-> BaseError(t.base),
+                               codes |-> {BaseError(t.base)} \cup (IF failed THEN {TaskError} ELSE {})]
+    ELSE IF failed THEN [res |-> "ERR", code |-> TaskError, codes |-> {TaskError}]
+    ELSE [res |-> "DATA", code |-> "OK", codes |-> {"OK"}]
 
 \* positions of the clone operations: each hands a clone to a side consumer
 SidePositions(t) == {i \in 1..Len(t.ops) : t.ops[i] \in {"CloneStream", "CloneCopy"}}
 
 Expected(t) ==
     [main |-> IF t.method = "GetSizeBytes"
-              THEN (IF t.base = "error" THEN [res |-> "ERR", code |-> "NotFound"] ELSE [res |-> "SIZE", code |-> "OK"])
-              ELSE IF t.method = "Discard" THEN [res |-> "DISCARDED", code |-> "OK"]
+              THEN (IF t.base = "error" THEN [res |-> "ERR", code |-> "NotFound", codes |-> {"NotFound"}] ELSE [res |-> "SIZE", code |-> "OK", codes |-> {"OK"}])
+              ELSE IF t.method = "Discard" THEN [res |-> "DISCARDED", code |-> "OK", codes |-> {"OK"}]
               ELSE OutcomeAfter(t, Len(t.ops)),
      sides |-> [i \in SidePositions(t) |-> OutcomeAfter(t, i)]]
 
